@@ -188,12 +188,14 @@ func (s *Segment) Size() int {
 }
 
 func (s *Segment) AddRef() {
+	verifYield("seg.addRef")
 	s.m.Lock()
 	s.refs++
 	s.m.Unlock()
 }
 
 func (s *Segment) DecRef() (err error) {
+	verifYield("seg.decRef")
 	s.m.Lock()
 	s.refs--
 	if s.refs == 0 {
@@ -448,6 +450,7 @@ func (sb *SegmentBase) dictionary(field string) (rv *Dictionary, err error) {
 		dictStart := sb.dictLocs[rv.fieldID]
 		if dictStart > 0 {
 			var ok bool
+			verifYield("dict.beforeLock")
 			sb.m.Lock()
 			if rv.fst, ok = sb.fieldFSTs[rv.fieldID]; !ok {
 				// read the length of the vellum data
@@ -539,7 +542,9 @@ var visitDocumentCtxPool = sync.Pool{
 // for the specified doc number
 func (s *SegmentBase) VisitStoredFields(num uint64, visitor segment.StoredFieldValueVisitor) error {
 	vdc := visitDocumentCtxPool.Get().(*visitDocumentCtx)
+	verifPoolGet("vdc", vdc)
 	defer visitDocumentCtxPool.Put(vdc)
+	defer verifPoolPut("vdc", vdc)
 	return s.visitStoredFields(vdc, num, visitor)
 }
 
@@ -560,6 +565,7 @@ func (s *SegmentBase) visitStoredFields(vdc *visitDocumentCtx, num uint64,
 
 		keepGoing := visitor("_id", byte('t'), idFieldVal, nil)
 		if !keepGoing {
+			verifPoolPut("vdc", vdc)
 			visitDocumentCtxPool.Put(vdc)
 			return nil
 		}
@@ -626,6 +632,7 @@ func (s *SegmentBase) DocID(num uint64) ([]byte, error) {
 	}
 
 	vdc := visitDocumentCtxPool.Get().(*visitDocumentCtx)
+	verifPoolGet("vdc", vdc)
 
 	meta, compressed := s.getDocStoredMetaAndCompressed(num)
 
@@ -638,6 +645,7 @@ func (s *SegmentBase) DocID(num uint64) ([]byte, error) {
 	}
 	idFieldVal := compressed[:idFieldValLen]
 
+	verifPoolPut("vdc", vdc)
 	visitDocumentCtxPool.Put(vdc)
 
 	return idFieldVal, nil
